@@ -261,7 +261,9 @@ DisplayDevs(c, t, b, s) ==
     LET vis == Vis(b) IN
     UNION { LET cell == b.cells[i] IN
             IF cell.lock # 0 \/ (vis[i].k = "cont" /\ b.cells[i-1].lock # 0) THEN {}
-            ELSE { Dev("C01.cell", p, (i - 1) % b.w, (i - 1) \div b.w,
+            \* the only cell of the bottom line of a one-column screen is a class of its own (finding F40: the corner
+            \* trick of auto-margin terminals needs a second column)
+            ELSE { Dev(IF b.w = 1 /\ i = Len(b.cells) THEN "C01.corner_one_column" ELSE "C01.cell", p, (i - 1) % b.w, (i - 1) \div b.w,
                        [k |-> vis[i].k, cp |-> vis[i].cp, got |-> t.g[i].cp])
                    : p \in CellWrong(c, s.fb, t.g[i], vis[i], IF i > 1 THEN vis[i-1] ELSE vis[i], s.def, s.pdef[i]) }
           : i \in 1..Len(b.cells) }
